@@ -340,7 +340,7 @@ def r181(P, u, rep):
 def _initial_ok(f):
     for k, v in f.entry.items():
         if k in (f.rcur, f.wcur):
-            if not ((isinstance(v, int) and v == 0) or (isinstance(v, Sym) and v.name == 'P')):
+            if not ((isinstance(v, int) and v == 0) or (isinstance(v, Sym) and (v.name == 'P' or v.name.startswith('chunk#')))):      # the buffer, or the piece fread handed over
                 return False
         elif not (isinstance(v, int) and v == 0):
             return False
@@ -547,6 +547,26 @@ def _r182_stage(P, u, rep, fn, loop):
         shape = _shape(ctx, consumed, wr)
         k0 = known_byte(ctx, consumed[0])
         where = '%s:%d' % (T, wr[0][3] if wr else f.loop_line)
+        if chunked:
+            # every byte an iteration looks at lies inside the piece fread/read handed over (what lies behind it is left over from an earlier piece)
+            from ..lib_c18e import piece_overrun
+            c18 = ctx.c18
+            for (arr, cb) in c18['chunk'].values():
+                n_ = c18['chunklen'].get(cb.key())
+                if n_ is None:
+                    continue
+                for a in f.reads:
+                    inside = piece_overrun(ctx, a, cb, n_)
+                    off = lsub(a, rb)
+                    if inside is False:
+                        rep.ob('R18.2', base + ':reads-inside-the-piece', False,
+                               'an iteration looks at the byte %s behind the read cursor without any condition of the path placing it inside the piece of the file that was read (%s bytes): '
+                               'at the end of a piece it sees a byte left over from an earlier piece, not the byte that follows in the file, so a CR LF pair that straddles two pieces is miscounted' % (off, n_),
+                               where=where, facts=facts)
+                    elif inside is None:
+                        rep.undecided('R18.2', base + ':reads-inside-the-piece', 'cannot tell whether the byte %s behind the read cursor lies inside the piece that was read' % (off,), where=where)
+                    else:
+                        rep.ob('R18.2', base + ':reads-inside-the-piece', True, '', where=where)
         if dr == 2 and k0 == 13 and known_byte(ctx, consumed[1]) == 10:
             seen.add('crlf')
             rep.ob('R18.2', base + ':CRLF-is-one-newline', [known_byte(ctx, v) for v in vals] == [10],
